@@ -1,0 +1,179 @@
+// VpnCloud - Peer-to-Peer VPN
+//
+// Verification hooks. This module is only compiled with `--cfg dswd_vpncloud_verif` and is not part of
+// the shipped program. It holds the thread-local seams that a deterministic simulator installs:
+// a source of "random" bytes, a sink for probe events and prescribed cipher speeds.
+// Without an installed callback every function here leaves the program's behaviour unchanged.
+
+use std::{cell::RefCell, net::SocketAddr};
+
+use ring::agreement::{EphemeralPrivateKey, X25519};
+
+use crate::types::{Address, Range};
+
+#[derive(Debug, Clone)]
+pub enum Event {
+    /// A datagram was sealed (`CryptoCore::encrypt`)
+    Seal { key_fp: u64, key_id: u8, nonce: [u8; 12] },
+    /// A key slot was (re)initialised with this first send nonce
+    NonceStart { key_fp: u64, nonce: [u8; 12] },
+    /// A rotated key was installed
+    KeyRotated { key_fp: u64, id: u64, use_for_sending: bool },
+    /// A handshake object reported success
+    HandshakeDone { initiator: bool, algorithm: &'static str },
+    /// An authenticated (or plain) message of this type is about to be handled
+    Message { src: SocketAddr, kind: u8 },
+    /// Claims of a peer were set from an announcement
+    ClaimsSet { peer: SocketAddr, claims: Vec<Range> },
+    /// Peer entry created
+    PeerAdded { addr: SocketAddr },
+    /// Peer entry removed
+    PeerRemoved { addr: SocketAddr, reason: &'static str },
+    /// Next node info announcement scheduled
+    NodeInfoScheduled { interval: u16, min_peer_timeout: u16, peers: usize },
+    BeaconStored { addrs: Vec<SocketAddr> },
+    BeaconLoaded { addrs: Vec<SocketAddr> },
+    /// Address learned from traffic
+    Learned { addr: Address, peer: SocketAddr },
+    /// Interface data was handled: result of the table lookup
+    Lookup { dst: Address, hop: Option<SocketAddr> },
+}
+
+pub type FillFn = Box<dyn FnMut(&'static str, &mut [u8])>;
+pub type ProbeFn = Box<dyn FnMut(Event)>;
+pub type SpeedFn = Box<dyn FnMut(&'static str) -> Option<f32>>;
+
+#[derive(Default)]
+pub struct Hooks {
+    pub fill: Option<FillFn>,
+    pub probe: Option<ProbeFn>,
+    pub speed: Option<SpeedFn>,
+}
+
+thread_local! {
+    static HOOKS: RefCell<Hooks> = RefCell::new(Hooks::default());
+}
+
+/// Installs the hooks for the current thread, returns the previous ones
+pub fn install(hooks: Hooks) -> Hooks {
+    HOOKS.with(|h| std::mem::replace(&mut *h.borrow_mut(), hooks))
+}
+
+/// Overwrites freshly drawn random bytes with bytes from the installed source (if any)
+pub fn fill(site: &'static str, buf: &mut [u8]) {
+    HOOKS.with(|h| {
+        if let Ok(mut h) = h.try_borrow_mut() {
+            if let Some(f) = h.fill.as_mut() {
+                f(site, buf)
+            }
+        }
+    })
+}
+
+pub fn has_fill() -> bool {
+    HOOKS.with(|h| h.try_borrow().map(|h| h.fill.is_some()).unwrap_or(false))
+}
+
+/// Emits a probe event (no-op without an installed sink)
+pub fn probe(ev: Event) {
+    HOOKS.with(|h| {
+        if let Ok(mut h) = h.try_borrow_mut() {
+            if let Some(f) = h.probe.as_mut() {
+                f(ev)
+            }
+        }
+    })
+}
+
+pub fn has_probe() -> bool {
+    HOOKS.with(|h| h.try_borrow().map(|h| h.probe.is_some()).unwrap_or(false))
+}
+
+/// Prescribed speed for a cipher (None: measure as usual)
+pub fn speed_for(algo: &'static str) -> Option<f32> {
+    HOOKS.with(|h| {
+        if let Ok(mut h) = h.try_borrow_mut() {
+            if let Some(f) = h.speed.as_mut() {
+                return f(algo);
+            }
+        }
+        None
+    })
+}
+
+/// Replacement for a freshly generated ECDH key: derived from 32 bytes of the installed source
+pub fn ecdh_key(site: &'static str, generated: EphemeralPrivateKey) -> EphemeralPrivateKey {
+    if !has_fill() {
+        return generated;
+    }
+    let mut seed = [0u8; 32];
+    fill(site, &mut seed);
+    let rng = ring::test::rand::FixedSliceRandom { bytes: &seed };
+    EphemeralPrivateKey::generate(&X25519, &rng).unwrap_or(generated)
+}
+
+/// Replacement for `thread_rng()` at shuffle/choose sites
+pub fn rng(site: &'static str) -> rand::rngs::StdRng {
+    use rand::SeedableRng;
+    let mut seed = [0u8; 32];
+    if has_fill() {
+        fill(site, &mut seed);
+        rand::rngs::StdRng::from_seed(seed)
+    } else {
+        rand::rngs::StdRng::from_entropy()
+    }
+}
+
+/// Hex helper for snapshots
+pub fn fp_of_tag(tag: &[u8]) -> u64 {
+    let mut v = [0u8; 8];
+    v.copy_from_slice(&tag[..8]);
+    u64::from_be_bytes(v)
+}
+
+#[derive(Debug, Clone, PartialEq)]
+pub struct PeerSnapshot {
+    pub addr: SocketAddr,
+    pub node_id: crate::types::NodeId,
+    pub timeout: crate::util::Time,
+    pub peer_timeout: u16,
+    pub addrs: Vec<SocketAddr>,
+    pub algorithm: &'static str,
+    pub init_stage: Option<u8>,
+    pub current_key: Option<u8>,
+    pub key_fps: Option<[u64; 4]>,
+}
+
+#[derive(Debug, Clone, PartialEq)]
+pub struct ReconnectSnapshot {
+    pub address: Option<String>,
+    pub resolved: Vec<SocketAddr>,
+    pub tries: u16,
+    pub timeout: u16,
+    pub next: crate::util::Time,
+}
+
+#[derive(Debug, Clone, PartialEq)]
+pub struct TableSnapshot {
+    pub claims: Vec<(Range, SocketAddr, crate::util::Time)>,
+    pub cache: Vec<(Address, SocketAddr, crate::util::Time)>,
+}
+
+#[derive(Debug, Clone, PartialEq)]
+pub struct NodeSnapshot {
+    pub node_id: crate::types::NodeId,
+    pub own_addresses: Vec<SocketAddr>,
+    pub claims: Vec<Range>,
+    pub peers: Vec<PeerSnapshot>,
+    pub pending: Vec<(SocketAddr, Option<u8>)>,
+    pub reconnect: Vec<ReconnectSnapshot>,
+    pub table: TableSnapshot,
+    pub next_peers: crate::util::Time,
+    pub next_housekeep: crate::util::Time,
+    pub next_beacon: crate::util::Time,
+    pub update_freq: u16,
+    pub dropped_in_packets: usize,
+    pub dropped_in_bytes: u64,
+    pub dropped_out_packets: usize,
+    pub dropped_out_bytes: u64,
+}
